@@ -32,8 +32,34 @@ def stdlib_programs(n, seed=0):
     return out
 
 
+def interleave_programs(bound):
+    """every argument-like sequence up to length `bound` over {positional, *starred, keyword=, **unpack} that CPython
+    accepts, as a call and as the bases of a decorated generic class: the inputs of the position-merging step
+    functions of Call / ClassDef (exhaustive up to the bound)"""
+    out, cur, k = [], [], 0
+    kinds = ('p{0}', '*s{0}', 'k{0}=v{0}', '**d{0}')
+    for n in range(0, bound + 1):
+        for combo in itertools.product(kinds, repeat=n):
+            args = ', '.join(c.format(i) for i, c in enumerate(combo))
+            for stmt in (f'r{k} = fn({args})', f'@deco\nclass C{k}[T]({args}):\n    pass', f'class D{k}({args}): x = 1'):
+                try:
+                    ast.parse(stmt)
+                except SyntaxError:
+                    continue
+                cur.append(stmt)
+                k += 1
+                if len(cur) == 60:
+                    out.append((f'gen_interleave_{len(out):03d}', '\n'.join(cur)))
+                    cur = []
+    if cur:
+        out.append((f'gen_interleave_{len(out):03d}', '\n'.join(cur)))
+    return out
+
+
 def programs(payload):
     progs = load_corpus()
+    if payload.get('interleave'):
+        progs += interleave_programs(payload['interleave'])
     if payload.get('tier') == 'thorough':
         progs += stdlib_programs(payload.get('stdlib_n', 40), payload.get('seed', 0))
     return progs
@@ -780,7 +806,7 @@ def main(payload):
 def replay(payload):
     from contracts import b_lib
     rep = payload.get('replay') or payload
-    progs = dict(programs({'tier': 'thorough', 'seed': rep.get('seed', 0)}))
+    progs = dict(programs({'tier': 'thorough', 'seed': rep.get('seed', 0), 'interleave': 5}))
     name = rep.get('program')
     if name not in progs:
         return {'reproduced': False, 'note': 'program not in scope'}
